@@ -177,7 +177,7 @@ def scenario(prog, nops, stats, mode, rich=False):
         taken_over = {}
         clock = 0
         for i in range(nops):
-            ops = ["register", "remove", "mark_invalid", "mark_valid", "refresh"] if mode == "book" else ["register", "tick", "takeover"]
+            ops = ["register", "remove", "mark_invalid", "mark_valid", "refresh"] if mode == "book" else ["register", "tick", "takeover", "probe_failed"]
             op = pick(it, opv[i], ops) if not (mode == "time" and i == 0) else "register"
             port = (pick(it, portv[i], [1, 2]) if i > 0 else 1) if mode == "book" else 1
             key = skey(port)
@@ -195,9 +195,14 @@ def scenario(prog, nops, stats, mode, rich=False):
                 has_tag = (it.branch(sy.bool(i, "has_tag")) if key in svc["instances"] else False) if mode == "book" else False
                 tag = NONE
                 if has_tag:
-                    tag = Some(Struct("InstanceUpdateTag", {"weight": sy.bool(i, "t_weight") if rich else True, "metadata": sy.bool(i, "t_meta") if rich else False,
-                                                            "enabled": sy.bool(i, "t_enabled"), "ephemeral": sy.bool(i, "t_ephemeral"),
-                                                            "from_update": sy.bool(i, "t_from_update") if rich else False}))
+                    if it.branch(sy.bool(i, "t_is_beat")):
+                        # the tag of an HTTP heartbeat: nothing is to be updated
+                        tag = Some(Struct("InstanceUpdateTag", {"weight": False, "metadata": False, "enabled": False, "ephemeral": False, "from_update": False}))
+                    else:
+                        tag = Some(Struct("InstanceUpdateTag", {"weight": sy.bool(i, "t_weight") if rich else True, "metadata": sy.bool(i, "t_meta") if rich else False,
+                                                                "enabled": sy.bool(i, "t_enabled"), "ephemeral": sy.bool(i, "t_ephemeral"),
+                                                                "from_update": sy.bool(i, "t_from_update") if rich else False}))
+                old_stored = svc["instances"].get(key)
                 from_sync = sy.bool(i, "from_sync") if (mode == "book" and rich) else False
                 existed = key in svc["instances"]
                 rec.append({"op": "register", "port": port, "t": t, "weight": ins["weight"], "enabled": ins["enabled"], "healthy": ins["healthy"], "ephemeral": ins["ephemeral"],
@@ -217,6 +222,21 @@ def scenario(prog, nops, stats, mode, rich=False):
                     for f in ("ephemeral", "enabled"):
                         if possible(rseval.to_bool(now[f]) != rseval.to_bool(ins[f])):
                             return ("violation", "a new registration does not carry the %s flag it was registered with" % f, log, "registration-field")
+                elif mode == "book":
+                    # C12: an update changes exactly the fields its tag names (no tag: all of them; a heartbeat's all-false tag: none) - a disabled
+                    # instance stays disabled, a weight set by the console stays, until an update that names the field
+                    tg = tag.payload[0] if has_tag else None
+                    for f in ("enabled", "ephemeral"):
+                        want = rseval.to_bool(ins[f]) if tg is None else z3.If(rseval.to_bool(tg[f]), rseval.to_bool(ins[f]), rseval.to_bool(old_stored[f]))
+                        if possible(rseval.to_bool(now[f]) != want):
+                            return ("violation", "an update of a registered instance %s: the stored %s flag is not the %s one" % (
+                                "without a tag" if tg is None else "with a tag", f, "requested" if tg is None else "one the tag selects (requested if named, else the stored)"), log, "update-field")
+                    if tg is None or isinstance(tg["weight"], bool):
+                        wantw = ins["weight"] if (tg is None or tg["weight"]) else old_stored["weight"]
+                        if now["weight"] != wantw:
+                            return ("violation", "an update of a registered instance: the stored weight is %s, the tag selects %s" % (now["weight"], wantw), log, "update-field")
+                    if tg is not None and tg["enabled"] is False:
+                        cover("heartbeat over a registered instance")
                 shadow[port] = now
                 last_beat[port] = t
                 overdue.pop(key, None)
@@ -251,6 +271,16 @@ def scenario(prog, nops, stats, mode, rich=False):
                 rec.append({"op": "refresh"})
                 it.call_method("Service", "do_refresh_process_range", svc, [])
                 log.append(("refresh",))
+            elif op == "probe_failed":
+                # the TCP health probe of a persistent instance fails (NamingActor::update_perpetual_health -> Service::update_instance_healthy_invalid):
+                # the instance becomes unhealthy - and its key enters the queue the heartbeat clock drains
+                cur = svc["instances"].get(key)
+                if cur is None or it.branch(rseval.to_bool(cur["ephemeral"])):
+                    raise rseval.PathAbort()
+                rec.append({"op": "mark_invalid", "port": port})
+                it.call_method("Service", "update_instance_healthy_invalid", svc, [key])
+                log.append(("probe_failed", port))
+                cover("failed probe of a persistent instance")
             elif op == "takeover":
                 # the service's key falls into this node's range after a cluster change (NamingActor::refresh_process_range): instances that
                 # were owned by another node are this node's responsibility from now on
@@ -422,12 +452,12 @@ def run(tier, seed, which="C11"):
     if which in ("C11", "C12"):
         plans.append(("s11_bookkeeping" if which == "C11" else "s12_queries_and_ownership", "book", 3,
                       "every history of %d operations over {register/update, deregister, mark unhealthy, mark healthy, refresh range} on 2 addresses; healthy / ephemeral / enabled and the update-tag bits for enabled and ephemeral symbolic (thorough: also gRPC origin, other-node origin, from_sync and the remaining tag bits); client ids from {'', c1, c2}",
-                      ["new registration", "foreign removal refused"]))
+                      ["new registration", "foreign removal refused", "heartbeat over a registered instance"]))
     if which == "C13":
         plans.append(("s13_expiry", "time", 4 if tier == "quick" else 5,
-                      "every history of %d steps over {register/heartbeat at t, time_check at t, take-over of the service after a cluster change} with t on the grid " + str(GRID) + ", health time-out %d, instance time-out %d; instance flags symbolic" % (H_TIMEOUT, O_TIMEOUT),
+                      "every history of %d steps over {register/heartbeat at t, time_check at t, take-over of the service after a cluster change, failed health probe of a persistent instance} with t on the grid " + str(GRID) + ", health time-out %d, instance time-out %d; instance flags symbolic" % (H_TIMEOUT, O_TIMEOUT),
                       ["beating instance survives a tick", "silent instance marked unhealthy", "silent unhealthy instance removed", "takeover of a service",
-                       "tick over an instance taken over from another node"]))
+                       "tick over an instance taken over from another node", "failed probe of a persistent instance"]))
     extra_c13 = None
     if which == "C13":
         from . import c13actor
